@@ -1,0 +1,33 @@
+//go:build verif
+
+package sftp
+
+// Add-only instrumentation for the /verif correspondence harness.
+// Nothing here is compiled unless the build tag "verif" is set; no existing line is touched.
+
+import (
+	"os"
+
+	sshfx "github.com/pkg/sftp/internal/encoding/ssh/filexfer"
+)
+
+// VerifToFileMode exposes toFileMode.
+func VerifToFileMode(mode uint32) os.FileMode { return toFileMode(mode) }
+
+// VerifFromFileMode exposes fromFileMode.
+func VerifFromFileMode(mode os.FileMode) uint32 { return fromFileMode(mode) }
+
+// VerifToChmodPerm exposes toChmodPerm.
+func VerifToChmodPerm(m os.FileMode) uint32 { return toChmodPerm(m) }
+
+// VerifIsRegular exposes isRegular.
+func VerifIsRegular(mode uint32) bool { return isRegular(mode) }
+
+// VerifModeString exposes the filexfer FileMode.String used by runLs.
+func VerifModeString(mode uint32) string { return sshfx.FileMode(mode).String() }
+
+// VerifRunLs exposes runLs with the server's default id lookup disabled (numeric ids).
+func VerifRunLs(fi os.FileInfo) string { return runLs(nil, fi) }
+
+// VerifFileStatFromInfo exposes fileStatFromInfo.
+func VerifFileStatFromInfo(fi os.FileInfo) (uint32, *FileStat) { return fileStatFromInfo(fi) }
